@@ -507,10 +507,20 @@ func c19Register(c *Ctx, r *Report, s subFns) {
 		return
 	}
 	n := 0
-	for _, ci := range callsIn(entry) {
-		if ci.Common().StaticCallee() != s.subscribe {
+	var sites []ssa.CallInstruction
+	for _, fn := range c.allFns {
+		if !c.inPkg(fn) {
 			continue
 		}
+		for _, ci := range callsIn(fn) {
+			if ci.Common().StaticCallee() == s.subscribe {
+				sites = append(sites, ci)
+			}
+		}
+	}
+	for _, ci := range sites {
+		entry := ci.Parent()
+		r.fnSeen(fnName(entry))
 		n++
 		ok := false
 		src := ""
@@ -537,10 +547,13 @@ func c19Register(c *Ctx, r *Report, s subFns) {
 				}
 			}
 		}
+		if !ok && registeredOnceBySet(ci) {
+			ok = true // a walk in another order that remembers what it has registered
+		}
 		r.check("C19.REGISTER", fmt.Sprintf("%s: registration #%d considers every entry of the resolved map", fnName(entry), n), ci.Pos(), ok,
-			"the registered value is "+src+", not the value of a range over the resolved map: a subscription resolved inside an inline fragment or fragment spread of the operation is never registered, receives no event and is not counted")
+			"the registered value is "+src+", not the value of a range over the resolved map: a subscription resolved inside an inline fragment or fragment spread of the operation is never registered, or - looked up once per selection - one whose response key is selected twice is registered twice and then receives every event twice and is cleaned up twice")
 	}
-	r.floor("C19.REGISTER", "registrations in the entry point", n, 1)
+	r.floor("C19.REGISTER", "registrations (calls of the registration function)", n, 1)
 }
 
 // elemAt: v is a load of root.subscriptions[idx].
@@ -855,6 +868,8 @@ func checkC20(c *Ctx, r *Report) {
 		}
 	}
 	r.floor("C20.ONCE", "clean-up callback sites", nOnce, 2)
+	c20Shadow(c, r, s)
+	importRules(c, r, "C19", "C20.REGONCE", "a subscription enters the registry once: the registered value is the value of a range over the resolved response map, one entry per response key (C19.REGISTER); registered once per selection instead, a subscriber whose key is selected twice is delivered every publish twice and cleaned up twice", "C19.REGISTER")
 	// TWOPHASE: the removal in AddEvent happens in a critical section that also contains the re-read used for identity
 	for i, rm := range findRemovals(s.addEvent) {
 		st := eng.local(s.addEvent)
@@ -911,4 +926,219 @@ func checkC20(c *Ctx, r *Report) {
 
 func lockRulesFiltered(c *Ctx, r *Report, eng *effEngine, prop string, sums map[*ssa.Function]*summary, class string) {
 	lockRules(c, r, eng, prop, sums, 4, 2)
+}
+
+// registeredOnceBySet: the registration is control dependent on a miss in a set (a map M: the lookup M[k]
+// is false / absent) and the same function enters k into M: each key or subscription passes at most once.
+func registeredOnceBySet(ci ssa.CallInstruction) bool {
+	fn := ci.Parent()
+	for _, g := range blockGuards(ci.Block()) {
+		g = normGuard(g)
+		var lk *ssa.Lookup
+		present := g.val
+		switch t := g.cond.(type) {
+		case *ssa.Lookup:
+			lk = t
+		case *ssa.Extract:
+			if l, ok := t.Tuple.(*ssa.Lookup); ok && t.Index == 1 {
+				lk = l
+			}
+		case *ssa.UnOp:
+			if l, ok := t.X.(*ssa.Lookup); ok && t.Op == token.NOT {
+				lk = l
+				present = !g.val
+			}
+		}
+		if lk == nil || present {
+			continue
+		}
+		if _, isMap := lk.X.Type().Underlying().(*types.Map); !isMap {
+			continue
+		}
+		for _, b := range fn.Blocks {
+			for _, in := range b.Instrs {
+				if mu, ok := in.(*ssa.MapUpdate); ok && sameVal(mu.Map, lk.X) && sameVal(mu.Key, lk.Index) {
+					return true
+				}
+			}
+		}
+	}
+	return false
+}
+
+// c20Shadow: whether there is anybody to deliver to is decided from the registry itself, inside the
+// critical section. A publish (or an unsubscribe) that returns before it ever took the registry lock, on a
+// condition computed from other state of the Root (a counter kept beside the registry, a flag), makes its
+// outcome depend on a shadow that is updated at other moments than the registry: when the shadow drifts,
+// events for registered subscribers are dropped silently.
+func c20Shadow(c *Ctx, r *Report, s subFns) {
+	r.rule("C20.SHADOW", "no return of AddEvent / Unsubscribe that is not dominated by subLock.Lock() is control dependent on state of the Root read outside the lock")
+	n := 0
+	for _, fn := range []*ssa.Function{s.addEvent, s.unsub} {
+		if fn == nil || len(fn.Params) == 0 {
+			continue
+		}
+		root := fn.Params[0]
+		var locks []ssa.CallInstruction
+		for _, ci := range callsIn(fn) {
+			if lk, ok := isMutexLock(ci); ok && lk {
+				locks = append(locks, ci)
+			}
+		}
+		fromRoot := func(v ssa.Value) bool {
+			seen := map[ssa.Value]bool{}
+			var walk func(v ssa.Value, d int) bool
+			walk = func(v ssa.Value, d int) bool {
+				if v == nil || seen[v] || d > 8 {
+					return false
+				}
+				seen[v] = true
+				switch t := v.(type) {
+				case *ssa.FieldAddr:
+					return t.X == ssa.Value(root) || walk(t.X, d+1)
+				case *ssa.UnOp:
+					return walk(t.X, d+1)
+				case *ssa.BinOp:
+					return walk(t.X, d+1) || walk(t.Y, d+1)
+				case *ssa.Convert:
+					return walk(t.X, d+1)
+				case *ssa.Phi:
+					for _, e := range t.Edges {
+						if walk(e, d+1) {
+							return true
+						}
+					}
+				case *ssa.Call:
+					for _, a := range t.Call.Args {
+						if walk(a, d+1) {
+							return true
+						}
+					}
+				case *ssa.Extract:
+					return walk(t.Tuple, d+1)
+				}
+				return false
+			}
+			return walk(v, 0)
+		}
+		k := 0
+		for _, rt := range returnsOf(fn) {
+			dominated := false
+			for _, lk := range locks {
+				if instrDominates(lk, rt) {
+					dominated = true
+				}
+			}
+			n++
+			k++
+			bad := ""
+			if !dominated {
+				for _, g := range blockGuards(rt.Block()) {
+					if fromRoot(g.cond) {
+						// tolerated only when the state is an exact mirror: every update of it is a constant step made
+						// in the same block as a write of the registry (one step per element added or removed)
+						if why := inexactMirror(c, g.cond); why != "" {
+							bad = shortPath(vpath(g.cond)) + " (" + why + ")"
+						}
+					}
+				}
+			}
+			r.check("C20.SHADOW", fmt.Sprintf("%s: return #%d is decided from the registry under its lock", fnName(fn), k), rt.Pos(), bad == "",
+				"the call returns without taking the registry lock, on "+bad+": state kept beside the registry and updated at other moments; once it drifts from the registry, events for subscribers that are still registered are dropped")
+		}
+	}
+	r.floor("C20.SHADOW", "returns of AddEvent / Unsubscribe", n, 2)
+}
+
+// inexactMirror: the Root fields the condition reads are mirrors of the registry only if each of their
+// updates, anywhere in the package, is a constant step next to a registry write. Returns the reason when not.
+func inexactMirror(c *Ctx, cond ssa.Value) string {
+	fields := map[string]bool{}
+	seen := map[ssa.Value]bool{}
+	var collect func(v ssa.Value, d int)
+	collect = func(v ssa.Value, d int) {
+		if v == nil || seen[v] || d > 8 {
+			return
+		}
+		seen[v] = true
+		switch t := v.(type) {
+		case *ssa.FieldAddr:
+			if o, f := fieldOwner(t.X.Type(), t.Field); o == "Root" {
+				fields[f] = true
+			}
+		case *ssa.UnOp:
+			collect(t.X, d+1)
+		case *ssa.BinOp:
+			collect(t.X, d+1)
+			collect(t.Y, d+1)
+		case *ssa.Convert:
+			collect(t.X, d+1)
+		case *ssa.Call:
+			for _, a := range t.Call.Args {
+				collect(a, d+1)
+			}
+		case *ssa.Extract:
+			collect(t.Tuple, d+1)
+		}
+	}
+	collect(cond, 0)
+	if len(fields) == 0 {
+		return "state of the Root"
+	}
+	registryWriteIn := func(b *ssa.BasicBlock) bool {
+		for _, in := range b.Instrs {
+			if st, ok := in.(*ssa.Store); ok {
+				if fa, ok := st.Addr.(*ssa.FieldAddr); ok {
+					if o, f := fieldOwner(fa.X.Type(), fa.Field); o == "Root" && f == "subscriptions" {
+						return true
+					}
+				}
+			}
+		}
+		return false
+	}
+	updates := 0
+	for _, fn := range c.allFns {
+		if !c.inPkg(fn) {
+			continue
+		}
+		for _, b := range fn.Blocks {
+			for _, in := range b.Instrs {
+				var delta ssa.Value
+				var fa *ssa.FieldAddr
+				switch t := in.(type) {
+				case *ssa.Store:
+					fa, _ = t.Addr.(*ssa.FieldAddr)
+					if bo, ok := t.Val.(*ssa.BinOp); ok && (bo.Op == token.ADD || bo.Op == token.SUB) {
+						delta = bo.Y
+					} else {
+						delta = t.Val
+					}
+				case *ssa.Call:
+					if f := calleeObj(t); f != nil && f.Pkg() != nil && f.Pkg().Path() == "sync/atomic" && len(t.Call.Args) >= 2 {
+						fa, _ = t.Call.Args[0].(*ssa.FieldAddr)
+						delta = t.Call.Args[1]
+					}
+				}
+				if fa == nil {
+					continue
+				}
+				o, f := fieldOwner(fa.X.Type(), fa.Field)
+				if o != "Root" || !fields[f] {
+					continue
+				}
+				updates++
+				if _, isC := delta.(*ssa.Const); !isC {
+					return fmt.Sprintf("Root.%s is adjusted by a computed amount at %s, not by one step per element", f, c.pos(in.Pos()))
+				}
+				if !registryWriteIn(b) {
+					return fmt.Sprintf("Root.%s is adjusted at %s apart from the registry write it should mirror", f, c.pos(in.Pos()))
+				}
+			}
+		}
+	}
+	if updates == 0 {
+		return "nothing keeps it in step with the registry"
+	}
+	return ""
 }
